@@ -71,6 +71,10 @@ def extract(config, th=None, log=sys.stderr):
     out = os.path.join(CACHE, th, config)
     done = os.path.join(out, ".done")
     if os.path.exists(done):
+        try:
+            os.utime(os.path.join(CACHE, th), None)
+        except OSError:
+            pass
         return out
     os.makedirs(os.path.join(CACHE, th), exist_ok=True)
     lock = open(os.path.join(CACHE, th, config + ".lock"), "w")
@@ -135,13 +139,20 @@ def extract_many(configs, log=sys.stderr):
 
 
 def prune_cache(keep):
-    """Keep the cache small: remove fact sets of other trees (oldest first), keeping 3."""
+    """Keep the cache small: remove fact sets of other trees that were not touched for two hours
+    (never the current one, never a recently used one: parallel self-tests share the cache)."""
     if not os.path.isdir(CACHE):
         return
-    ents = [e for e in os.listdir(CACHE) if e != keep and os.path.isdir(os.path.join(CACHE, e))]
-    ents.sort(key=lambda e: os.path.getmtime(os.path.join(CACHE, e)))
-    for e in ents[:-3] if len(ents) > 3 else []:
-        shutil.rmtree(os.path.join(CACHE, e), ignore_errors=True)
+    now = time.time()
+    for e in os.listdir(CACHE):
+        p = os.path.join(CACHE, e)
+        if e == keep or not os.path.isdir(p):
+            continue
+        try:
+            if now - os.path.getmtime(p) > 7200:
+                shutil.rmtree(p, ignore_errors=True)
+        except OSError:
+            pass
 
 
 _IK = {'d', 'p', 'tr', 'r', 'rp', 'ty', 'uv', 'uvp', 'param', 's', 'n', 'of', 'ck', 'adt', 'vn',
